@@ -58,6 +58,9 @@ pub enum Op {
     Display,
     /// the only correct incremental repaint: display(), read dirty, clear dirty - one critical section
     Paint,
+    /// the embedder clears the public dirty set without looking at the screen (legitimate use of
+    /// a public field; used by C10 only - it would make C17's renderer lose updates by itself)
+    ClearDirty,
 }
 
 impl Op {
@@ -116,6 +119,7 @@ impl Op {
                 let _ = s.display();
                 s.dirty.clear();
             }
+            ClearDirty => s.dirty.clear(),
         }
     }
 
@@ -267,6 +271,7 @@ impl Op {
             Resize(..) => "resize",
             Display => "display",
             Paint => "paint",
+            ClearDirty => "clear_dirty",
         }
     }
 }
